@@ -126,7 +126,7 @@ class ParseShebangLanguage:
         return "python" if line.startswith("#!") and "python" in line else None
 
 
-@contract(LD + "_read_first_line", props=["C15", "C11"], types=dict(file_path=PathT), returns=Str,
+@contract(LD + "_read_first_line", no_selftest=True, props=["C15", "C11"], types=dict(file_path=PathT), returns=Str,
           raises=["OSError", "UnicodeDecodeError"])
 class ReadFirstLine:
     """Not a containment point itself: its caller contains both classes. str.split always yields >= 1 piece."""
@@ -140,7 +140,7 @@ class ReadFirstLine:
         return fs_text(file_path).split("\n")[0]
 
 
-@contract(LD + "_detect_from_shebang", props=["C15", "C11"], types=dict(file_path=PathT), returns=Opt(Str), raises=[])
+@contract(LD + "_detect_from_shebang", no_selftest=True, props=["C15", "C11"], types=dict(file_path=PathT), returns=Opt(Str), raises=[])
 class DetectFromShebang:
     """Unreadable / binary file => None (language 'unknown'), never an exception."""
     def value(file_path):
@@ -150,7 +150,7 @@ class DetectFromShebang:
         return result is None or result == "python"
 
 
-@contract(LD + "detect_language", props=["C15", "C11", "C10", "C14", "C08"], types=dict(file_path=PathT), returns=Str,
+@contract(LD + "detect_language", no_selftest=True, props=["C15", "C11", "C10", "C14", "C08"], types=dict(file_path=PathT), returns=Str,
           raises=["OSError"])
 class DetectLanguage:
     """C11 stated gap: `file_path.exists() and file_path.stat().st_size > 0` -- stat() after exists() is outside every
